@@ -168,11 +168,16 @@ func parseOp(name, class, text string, call func(inst any, buf []byte) (any, err
 var validDocs = []struct{ class, text string }{
 	{"scalar", `17`}, {"array", `[1,"a",true,null]`}, {"object", `{"a":{"b":[1,2]},"c":"x"}`},
 	{"big", `[123456789012345678901234,0.5,-3]`}, {"escapes", `["aA\n\"","😀"]`}, {"uescapes", `{"k\u0041":"x\u0041y\u00e9","n":null,"t":true,"f":false}`},
+	// past the capacities an instance starts with (maps of 8, stacks of 16, token buffers of 32):
+	// what has grown once stays with the instance
+	{"wide", `{"k0":0,"k1":1,"k2":2,"k3":3,"k4":4,"k5":5,"k6":6,"k7":7,"k8":8}`},
+	{"deep", strings.Repeat(`[{"a":`, 9) + `["0123456789abcdefghijklmnopqrstuvwxyz\n0123456789",1]` + strings.Repeat(`}]`, 9)},
 }
 
 var invalidDocs = []struct{ class, text string }{
 	{"in-string", `["abc`}, {"in-uescape", `["\u00`}, {"in-number", `[-`}, {"in-frac", `[1.5e`}, {"key-pending", `{"a"`},
 	{"after-colon", `{"a":`}, {"after-comma", "[1,\n"}, {"in-literal", `[tru`}, {"bad-char", "[1,\n  x]"}, {"extra", `1 2`}, {"deep-open", `[[{"a":[`},
+	{"deeper-open", strings.Repeat(`[{"a":`, 9) + `["0123456789abcdefghijklmnopqrstuvwxyz\n01234`},
 }
 
 // ------------------------------------------------------------------ kinds
